@@ -106,6 +106,12 @@ _CMP = {
 }
 
 
+class _Rev(dict):
+    """Reverse table of an EnumMap; `unknown` when the table's reverse key could not be followed."""
+
+    unknown = False
+
+
 class Folder:
     def __init__(self, model: Model):
         self._depth = 0
@@ -188,16 +194,35 @@ class Folder:
         members = {k: v for k, v in self.enum_members(ci).items() if not isinstance(v, FuncRef)}
         by_name = {k.lower(): v for k, v in members.items()}
         vk = self.class_attr(ci, "_value_key_")
-        rev = {}
+        vk_attr = None
+        vk_node = next((k_.attrs["_value_key_"] for k_ in ci.mro() if "_value_key_" in getattr(k_, "attrs", {})), None)
+        if isinstance(vk, FuncRef):
+            node = vk.node
+            body = node.body if isinstance(node, ast.Lambda) else next((r.value for r in ast.walk(node) if isinstance(r, ast.Return)), None)
+            params = node.args.args
+            if body is not None and params and isinstance(body, ast.Attribute) and isinstance(body.value, ast.Name) and body.value.id == params[0].arg:
+                vk_attr = body.attr
+        elif vk_node is not None:
+            # `_value_key_ = attrgetter("code")`, directly or through a module-level name assigned once
+            call, mod_ = vk_node, ci.module
+            if isinstance(call, ast.Name):
+                sym = self.model.resolve(mod_.name, call.id)
+                if sym is not None and sym.kind == "assign" and len(sym.values) == 1 and sym.module in self.model.modules:
+                    call, mod_ = sym.values[0], self.model.modules[sym.module]
+            if isinstance(call, ast.Call) and len(call.args) == 1 and not call.keywords and isinstance(call.args[0], ast.Constant) and isinstance(call.args[0].value, str) and call.args[0].value.isidentifier():
+                fname = call.func.id if isinstance(call.func, ast.Name) else call.func.attr if isinstance(call.func, ast.Attribute) else None
+                fsym = self.model.resolve(mod_.name, call.func.id) if isinstance(call.func, ast.Name) else self.model.resolve(mod_.name, call.func.value.id) if isinstance(call.func, ast.Attribute) and isinstance(call.func.value, ast.Name) else None
+                if fname == "attrgetter" and fsym is not None and getattr(fsym, "target", None) == "operator":
+                    vk_attr = call.args[0].value
+        rev = _Rev()
+        if vk_node is not None and vk_attr is None:
+            rev.unknown = True  # the table defines a reverse key this reading cannot follow: reverse lookups decide nothing
         for name, v in members.items():
             k = v
-            if isinstance(vk, FuncRef) and isinstance(v, ClassRef):
-                node = vk.node
-                body = node.body if isinstance(node, ast.Lambda) else next((r.value for r in ast.walk(node) if isinstance(r, ast.Return)), None)
-                params = node.args.args
+            if vk_attr is not None and isinstance(v, ClassRef):
+                k = self.class_attr(v.ci, vk_attr)
+            elif vk_node is not None and isinstance(v, ClassRef):
                 k = UNKNOWN
-                if body is not None and params and isinstance(body, ast.Attribute) and isinstance(body.value, ast.Name) and body.value.id == params[0].arg:
-                    k = self.class_attr(v.ci, body.attr)
             if k is not UNKNOWN and not isinstance(k, (ClassRef, FuncRef, Instance)):
                 try:
                     rev[k] = name.lower()  # later members win, names are stored lower-cased (MapMeta.__new__)
@@ -211,6 +236,8 @@ class Folder:
         reading): str keys are lower-cased, the merged table is names + lower-cased names + reverse keys (reverse keys win),
         and str results are upper-cased when the table's own body sets _return_caps_only_."""
         by_name, rev = self.enum_tables(ci)
+        if getattr(rev, "unknown", False):
+            return UNKNOWN
         kk = k.lower() if isinstance(k, str) else k
         try:
             val = rev[kk] if kk in rev else by_name.get(kk, default) if isinstance(kk, str) else default
@@ -509,6 +536,14 @@ class Folder:
         if isinstance(f, ast.Name) and f.id not in env:
             name = f.id
             shadow = self.model.resolve(module.name, name)
+            if shadow is not None and shadow.kind == "external" and getattr(shadow, "target", None) == "struct" and getattr(shadow, "name", name) == name \
+                    and name in ("calcsize", "pack", "unpack", "unpack_from") and not has_star and not kwargs and args and isinstance(args[0], (str, bytes)) and is_known(args):
+                # `from struct import calcsize / pack / unpack` applied to constants
+                try:
+                    r_ = getattr(struct, name)(*args)
+                except (struct.error, TypeError):
+                    return UNKNOWN
+                return r_
             if shadow is None and not has_star:
                 if name == "bytes":
                     if len(args) == 1 and isinstance(args[0], int) and not isinstance(args[0], bool):
@@ -539,6 +574,27 @@ class Folder:
                     return list(r) if len(r) <= 100000 else UNKNOWN
                 if name in ("dict",) and not args:
                     return dict(kwargs)
+                if name == "dict" and len(args) == 1:
+                    src = args[0]
+                    if isinstance(src, dict):
+                        return {**src, **kwargs}
+                    if isinstance(src, (list, tuple)) and all(isinstance(p, (list, tuple)) and len(p) == 2 and is_known(p[0]) for p in src):
+                        return {**{p[0]: p[1] for p in src}, **kwargs}
+                    return UNKNOWN
+                if name == "enumerate" and 1 <= len(args) <= 2 and isinstance(args[0], (list, tuple, str, bytes, dict)) and not (set(kwargs) - {"start"}):
+                    start = args[1] if len(args) == 2 else kwargs.get("start", 0)
+                    if isinstance(start, int) and not isinstance(start, bool):
+                        return [(i, x) for i, x in enumerate(args[0], start)]
+                    return UNKNOWN
+                if name == "zip" and args and not kwargs and all(isinstance(a, (list, tuple, str, bytes, dict)) for a in args):
+                    return [tuple(t) for t in zip(*args)]
+                if name == "reversed" and len(args) == 1 and not kwargs and isinstance(args[0], (list, tuple, str, bytes)):
+                    return list(reversed(args[0]))
+                if name == "sorted" and len(args) == 1 and not (set(kwargs) - {"reverse"}) and isinstance(args[0], (list, tuple, dict, frozenset)) and is_known(list(args[0])) and is_known(list(kwargs.values())):
+                    try:
+                        return sorted(args[0], **kwargs)
+                    except TypeError:
+                        return UNKNOWN
                 if name in ("set", "frozenset") and len(args) <= 1:
                     if not args:
                         return frozenset()
@@ -600,7 +656,7 @@ class Folder:
                 return getattr(recv, meth)(*args, **kwargs)
             if isinstance(recv, _re.Match) and meth in ("group", "groups", "groupdict", "start", "end", "span") and not has_star and is_known(args):
                 r_ = getattr(recv, meth)(*args, **kwargs)
-                return list(r_) if False else r_
+                return r_
             if isinstance(recv, ClassRef) and not has_star:
                 if meth == "get" and 1 <= len(args) <= 2 and not kwargs and recv.ci.has_base_named("EnumMap") and "get" not in recv.ci.methods and is_known(args):
                     return self.enum_lookup(recv.ci, args[0], args[1] if len(args) == 2 else None)
